@@ -19,6 +19,8 @@ def check(tree, rep, tier='quick', seed=0):
     l1_access(tree, rep)
     l2_effects(tree, rep)
     R.k6_single_value_writer(core, rep)
+    R.k12_schedule_once(core, rep)
+    R.k13_add_form(core, rep)            # what a form load registers does not depend on how the form was first reached
     R.k7_missing_key_raises(core, rep)
     R.k8_input_store_writes(core, rep)
     R.k11_input_gate(core, rep)
